@@ -41,6 +41,12 @@ pub enum Op {
     /// taken from it and given to `other` (a supervisor restarting a worker under the same name): a registration that
     /// succeeded must survive the victim's own clean-up
     KillRebind { victim: u8, other: u8, name: u8, turns: u8 },
+    /// `{'$gen_cast', V}` to the gen_server: no answer, but every later call reports the sum of the casts handled before it
+    GenCast { value: i32 },
+    /// a message that is neither a call nor a cast: the server's `handle_info` counts it
+    GenInfo { value: i32 },
+    /// `{'$gen_notify', V}` to the event manager: every handler adds V to its state, later calls report it
+    GenNotify { value: i32 },
 }
 
 #[derive(Clone, Debug, Serialize, Deserialize, PartialEq)]
@@ -62,38 +68,50 @@ pub struct Case {
     pub teardown: Vec<Op>,
 }
 
-struct Echo;
+#[derive(Default)]
+struct Echo {
+    casts: i64,
+    infos: i64,
+}
 impl GenServer for Echo {
     async fn init(&mut self, _args: Vec<OwnedTerm>) -> edp_node::Result<()> {
         Ok(())
     }
     async fn handle_call(&mut self, msg: OwnedTerm, _from: ExternalPid) -> edp_node::Result<CallResult> {
-        Ok(CallResult::Reply(OwnedTerm::Tuple(vec![OwnedTerm::atom("echo"), msg])))
+        Ok(CallResult::Reply(OwnedTerm::Tuple(vec![OwnedTerm::atom("echo"), msg, OwnedTerm::Integer(self.casts), OwnedTerm::Integer(self.infos)])))
     }
-    async fn handle_cast(&mut self, _msg: OwnedTerm) -> edp_node::Result<()> {
+    async fn handle_cast(&mut self, msg: OwnedTerm) -> edp_node::Result<()> {
+        self.casts += msg.as_integer().unwrap_or(0);
         Ok(())
     }
     async fn handle_info(&mut self, _msg: OwnedTerm) -> edp_node::Result<()> {
+        self.infos += 1;
         Ok(())
     }
 }
 
-struct Doubler;
+/// event handler `name`: answers a call V with V * k + (sum of the events notified so far)
+struct Doubler {
+    k: i64,
+    name: &'static str,
+    events: i64,
+}
 impl GenEventHandler for Doubler {
     fn init<'a>(&'a mut self, _args: OwnedTerm) -> std::pin::Pin<Box<dyn std::future::Future<Output = edp_node::Result<()>> + Send + 'a>> {
         Box::pin(async { Ok(()) })
     }
-    fn handle_event<'a>(&'a mut self, _event: OwnedTerm) -> std::pin::Pin<Box<dyn std::future::Future<Output = edp_node::Result<EventResult>> + Send + 'a>> {
+    fn handle_event<'a>(&'a mut self, event: OwnedTerm) -> std::pin::Pin<Box<dyn std::future::Future<Output = edp_node::Result<EventResult>> + Send + 'a>> {
+        self.events += event.as_integer().unwrap_or(0);
         Box::pin(async { Ok(EventResult::Ok) })
     }
     fn handle_call<'a>(&'a mut self, request: OwnedTerm) -> std::pin::Pin<Box<dyn std::future::Future<Output = edp_node::Result<GenEventCallResult>> + Send + 'a>> {
         Box::pin(async move {
             let v = request.as_integer().unwrap_or(0);
-            Ok(GenEventCallResult::Reply(OwnedTerm::Integer(v * 2)))
+            Ok(GenEventCallResult::Reply(OwnedTerm::Integer(v * self.k + self.events)))
         })
     }
     fn id(&self) -> OwnedTerm {
-        OwnedTerm::atom("doubler")
+        OwnedTerm::atom(self.name)
     }
 }
 
@@ -136,9 +154,12 @@ fn run_net(c: &Case) -> Result<Result<NetOut, String>, BedErr> {
             procs.push((pid, log));
             gates.push(gate);
         }
-        let server = node.spawn(GenServerProcess::new(Echo, node.registry())).await.map_err(|e| e.to_string())?;
+        let server = node.spawn(GenServerProcess::new(Echo::default(), node.registry())).await.map_err(|e| e.to_string())?;
         let mut mgr = GenEventManager::new(node.registry());
-        mgr.add_handler(Box::new(Doubler), OwnedTerm::Nil).await.map_err(|e| e.to_string())?;
+        mgr.add_handler(Box::new(Doubler { k: 2, name: "doubler", events: 0 }), OwnedTerm::Nil).await.map_err(|e| e.to_string())?;
+        mgr.add_handler(Box::new(Doubler { k: 3, name: "tripler", events: 0 }), OwnedTerm::Nil).await.map_err(|e| e.to_string())?;
+        // what the behaviours have been told so far (casts, plain messages, events)
+        let (mut cast_sum, mut info_count, mut event_sum) = (0i128, 0i128, 0i128);
         let manager = node.spawn(mgr).await.map_err(|e| e.to_string())?;
         let base_count = node.process_count().await;
         let mut m = Model { alive: vec![true; NPROC], expected: vec![vec![]; NPROC], ..Default::default() };
@@ -437,7 +458,10 @@ fn run_net(c: &Case) -> Result<Result<NetOut, String>, BedErr> {
                     }
                     Op::GenCall { caller, request } | Op::GenEventCall { caller, request } => {
                         let cidx = *caller as usize % NPROC;
-                        if m.alive[cidx] {
+                        // a call may also carry the identifier of a caller that has failed meanwhile (it was on its way when the caller
+                        // went): nobody is left to answer, and the behaviour must go on serving the others
+                        let caller_alive = m.alive[cidx];
+                        {
                             ref_no += 1;
                             let r = ExternalReference::new(Atom::new("rust@127.0.0.1"), node.creation(), vec![ref_no, 7, 7]);
                             let from = OwnedTerm::Tuple(vec![OwnedTerm::Pid(procs[cidx].0.clone()), OwnedTerm::Reference(r.clone())]);
@@ -445,28 +469,41 @@ fn run_net(c: &Case) -> Result<Result<NetOut, String>, BedErr> {
                             let (target, msg, reply) = if is_event {
                                 (
                                     &manager,
-                                    OwnedTerm::Tuple(vec![OwnedTerm::atom("$gen_call"), from, OwnedTerm::atom("doubler"), OwnedTerm::Integer(*request as i64)]),
-                                    Value::int(*request as i128 * 2),
+                                    OwnedTerm::Tuple(vec![OwnedTerm::atom("$gen_call"), from, OwnedTerm::atom(if request % 2 == 0 { "doubler" } else { "tripler" }), OwnedTerm::Integer(*request as i64)]),
+                                    Value::int(*request as i128 * if request % 2 == 0 { 2 } else { 3 } + event_sum),
                                 )
                             } else {
                                 (
                                     &server,
                                     OwnedTerm::Tuple(vec![OwnedTerm::atom("$gen_call"), from, OwnedTerm::Integer(*request as i64)]),
-                                    Value::Tuple(vec![Value::atom("echo"), Value::int(*request as i128)]),
+                                    Value::Tuple(vec![Value::atom("echo"), Value::int(*request as i128), Value::int(cast_sum), Value::int(info_count)]),
                                 )
                             };
                             let answer = Event::Regular(Value::Tuple(vec![denote(&OwnedTerm::Reference(r)), reply])).canon();
                             match node.send(target, msg).await {
-                                Ok(()) => m.expected[cidx].push(answer.clone()),
+                                Ok(()) if caller_alive => m.expected[cidx].push(answer.clone()),
+                                Ok(()) => {}
                                 Err(e) => problems.push(("gen-call-send-failed".into(), e.to_string())),
                             }
                             // the reply is produced by another task: wait for it so that the order in the caller's log is fixed
                             let lg = procs[cidx].1.clone();
-                            if !wait_until(Duration::from_secs(5), || lg.lock().unwrap().contains(&answer)).await {
-                                problems.push(("gen-call-not-answered".into(), format!("{}: call #{ref_no} from process {cidx}", $phase)));
+                            if caller_alive && !wait_until(Duration::from_secs(5), || lg.lock().unwrap().contains(&answer)).await {
+                                problems.push(("gen-call-not-answered".into(), format!("{}: call #{ref_no} from process {cidx}; its log: {:?}", $phase, lg.lock().unwrap().iter().rev().take(3).collect::<Vec<_>>())));
                             }
                         }
                     }
+                    Op::GenCast { value } => match node.send(&server, OwnedTerm::Tuple(vec![OwnedTerm::atom("$gen_cast"), OwnedTerm::Integer(*value as i64)])).await {
+                        Ok(()) => cast_sum += *value as i128,
+                        Err(e) => problems.push(("gen-cast-send-failed".into(), e.to_string())),
+                    },
+                    Op::GenInfo { value } => match node.send(&server, OwnedTerm::Tuple(vec![OwnedTerm::atom("note"), OwnedTerm::Integer(*value as i64)])).await {
+                        Ok(()) => info_count += 1,
+                        Err(e) => problems.push(("gen-info-send-failed".into(), e.to_string())),
+                    },
+                    Op::GenNotify { value } => match node.send(&manager, OwnedTerm::Tuple(vec![OwnedTerm::atom("$gen_notify"), OwnedTerm::Integer(*value as i64)])).await {
+                        Ok(()) => event_sum += *value as i128,
+                        Err(e) => problems.push(("gen-notify-send-failed".into(), e.to_string())),
+                    },
                 }
             }};
         }
@@ -680,7 +717,16 @@ pub fn oracle(c: &Case) -> Verdict {
             .class_if(multi_sender, "several-tasks-one-target")
             .class_if(out.switched > 0, "schedule-yields")
             .class_if(out.raced, "contested-name")
-            .class_if(c.setup.iter().chain(c.teardown.iter()).any(|o| matches!(o, Op::GenCall { .. } | Op::GenEventCall { .. })), "gen-call"),
+            .class_if(c.setup.iter().chain(c.teardown.iter()).any(|o| matches!(o, Op::GenCall { .. } | Op::GenEventCall { .. })), "gen-call")
+            .class_if(
+                {
+                    let ops: Vec<&Op> = c.setup.iter().chain(c.teardown.iter()).collect();
+                    let told = ops.iter().position(|o| matches!(o, Op::GenCast { .. } | Op::GenInfo { .. } | Op::GenNotify { .. }));
+                    let asked = ops.iter().rposition(|o| matches!(o, Op::GenCall { .. } | Op::GenEventCall { .. }));
+                    matches!((told, asked), (Some(t), Some(a)) if t < a)
+                },
+                "gen-call-after-casts-or-events",
+            ),
     )
 }
 
@@ -699,6 +745,20 @@ fn op_strategy() -> impl Strategy<Value = Op> {
         1 => (any::<u8>(), -1000i32..1000).prop_map(|(caller, request)| Op::GenEventCall { caller, request }),
         1 => (any::<u8>(), any::<u8>()).prop_map(|(victim, watcher)| Op::KillWhileFull { victim, watcher }),
         1 => (any::<u8>(), any::<u8>(), any::<u8>(), any::<u8>()).prop_map(|(victim, other, name, turns)| Op::KillRebind { victim, other, name, turns }),
+        1 => gen_op_strategy(),
+    ]
+}
+
+/// traffic for the two behaviours only: calls from several callers between casts, plain messages and events
+fn gen_op_strategy() -> impl Strategy<Value = Op> {
+    let small = || prop_oneof![Just(0i32), Just(1), Just(-1), -1000i32..1000, any::<i32>()];
+    prop_oneof![
+        3 => (any::<u8>(), small()).prop_map(|(caller, request)| Op::GenCall { caller, request }),
+        3 => (any::<u8>(), -1000i32..1000).prop_map(|(caller, request)| Op::GenEventCall { caller, request }),
+        2 => small().prop_map(|value| Op::GenCast { value }),
+        1 => small().prop_map(|value| Op::GenInfo { value }),
+        2 => (-100_000i32..100_000).prop_map(|value| Op::GenNotify { value }),
+        1 => any::<u8>().prop_map(|proc_| Op::Kill { proc_ }),
     ]
 }
 
@@ -715,7 +775,7 @@ fn strategy() -> impl Strategy<Value = Case> {
         prop::collection::vec(op_strategy(), 0..16),
         prop::collection::vec(prop::collection::vec(task_op_strategy(), 0..10), 0..4),
         prop::collection::vec(any::<u8>(), 0..30),
-        prop::collection::vec(op_strategy(), 0..20),
+        prop_oneof![6 => prop::collection::vec(op_strategy(), 0..20), 1 => prop::collection::vec(gen_op_strategy(), 4..24)],
     )
         .prop_map(|(setup, tasks, schedule, teardown)| Case { setup, tasks, schedule, teardown })
 }
